@@ -34,6 +34,13 @@ import Scico.Common.Scalar
 namespace Scico.Autograd
 open Scico
 
+/-- natural logarithm as an operation (`Float.log` at run time, `Real.log` in proofs) — used by
+    `PoissonLoss` only -/
+class HasLog (α : Type) where
+  log : α → α
+
+instance : HasLog Float := ⟨Float.log⟩
+
 /-! ## complex scalars -/
 
 structure Cx (α : Type) where
@@ -202,6 +209,40 @@ def cvjpArgs (jidx : Nat) (primals : List β) (var : β) : Option (List β) :=
 
 end plumbing
 
+/-! ## a family of nonlinear operators (what `Operator(eval_fn=…)` is given in the tie) -/
+
+section op
+variable {α : Type} {n m : Nat}
+
+/-- the operator `F(x) = A x + B conj(x) + (C x)² + c` (square taken entry by entry): ℂ-linear part,
+    anti-linear part (so `F` need not be holomorphic), a quadratic part, an offset.  This is the family
+    the correspondence builds with `scico.operator.Operator(eval_fn=…)`; scico itself only forwards
+    `jax.jvp`/`jax.vjp` of whatever `eval_fn` it is given. -/
+structure Op (α : Type) (n m : Nat) where
+  A : Mat α m n
+  B : Mat α m n
+  C : Mat α m n
+  c : CVec α m
+
+variable [Add α] [Sub α] [Mul α] [Neg α] [Zero α]
+
+/-- `F(x)` -/
+def Op.eval (F : Op α n m) (x : CVec α n) : CVec α m :=
+  fun i => mulVec F.A x i + mulVec F.B (conjVec x) i + mulVec F.C x i * mulVec F.C x i + F.c i
+
+/-- `F.jvp(u, v)[1]`: the (real-linear) Jacobian `v ↦ A v + B conj(v) + 2 (C u)·(C v)` -/
+def Op.jvp (F : Op α n m) (u v : CVec α n) : CVec α m :=
+  fun i => mulVec F.A v i + mulVec F.B (conjVec v) i
+    + (mulVec F.C u i * mulVec F.C v i + mulVec F.C u i * mulVec F.C v i)
+
+/-- what `jax.vjp(F, u)[1]` computes: the transpose of the Jacobian for the pairing `Re Σ aᵢbᵢ`,
+    `c ↦ Aᵀ c + conj(Bᵀ c) + 2 Cᵀ((C u)·c)` -/
+def Op.vjpT (F : Op α n m) (u : CVec α n) (c : CVec α m) : CVec α n :=
+  fun j => mulVec (transpose F.A) c j + (mulVec (transpose F.B) c j).conj
+    + mulVec (transpose F.C) (fun i => (mulVec F.C u i + mulVec F.C u i) * c i) j
+
+end op
+
 /-! ## differentiable functionals and losses as an expression language -/
 
 section fn
@@ -240,8 +281,19 @@ inductive Fn (α : Type) : Nat → Type where
   /-- `SquaredL2SquaredAbsLoss(y, A, scale, W)`: `scale * sum(W.diagonal * abs(y - abs(A(x))**2)**2)`,
       `y` real -/
   | sqL2SqAbsLoss {n m : Nat} (s : α) (A : Mat α m n) (y : Vec α m) (w : Vec α m) : Fn α n
+  /-- `SquaredL2AbsLoss(y, A, scale, W)`: `scale * sum(W.diagonal * abs(y - abs(A(x)))**2)`, `y` real -/
+  | sqL2AbsLoss {n m : Nat} (s : α) (A : Mat α m n) (y : Vec α m) (w : Vec α m) : Fn α n
+  /-- `PoissonLoss(y, A, scale)`: `scale * sum(Ax - y*log(Ax) + const)`, `const = gammaln(y+1)` computed
+      at construction (a constant of the object, passed as data); real data only — the model reads the
+      real parts of `A x` -/
+  | poisson {n m : Nat} (s : α) (A : Mat α m n) (y : Vec α m) (cst : Vec α m) : Fn α n
+  /-- `Loss(y, F, f, scale)` with a *nonlinear* operator `F`: `self.scale * self.f(self.A(x) - self.y)` -/
+  | lossOp {n m : Nat} (s : α) (F : Op α n m) (y : CVec α m) (f : Fn α m) : Fn α n
+  /-- `SquaredL2Loss(y, F, scale, W)` with a nonlinear operator `F` (no `hessian`, no `prox`) -/
+  | sqL2LossOp {n m : Nat} (s : α) (F : Op α n m) (y : CVec α m) (w : Vec α m) : Fn α n
 
 variable [Add α] [Sub α] [Mul α] [Div α] [Neg α] [Zero α] [One α] [LT α] [DecidableLT α] [HasSqrt α]
+  [HasLog α]
 
 def two : α := 1 + 1
 
@@ -264,6 +316,19 @@ def huberOf (δ r : α) : α :=
 def huberNonsepOf (δ s : α) : α :=
   if δ < HasSqrt.sqrt s then δ * (HasSqrt.sqrt s - δ / two) else (1 / two) * s
 
+/-- `L21Norm._l2norm` as a function of the squared group norm `l2sq`:
+    `nz = l2sq > 0; where(nz, sqrt(where(nz, l2sq, 1.0)), 0.0)` — the square root is never evaluated
+    at 0 (its derivative there is infinite), a group that is identically zero contributes the
+    constant 0 (repair 66922fe) -/
+def l2normGuarded (s : α) : α := if 0 < s then HasSqrt.sqrt s else 0
+
+/-- cotangent of `|z|` with respect to `z` under JAX's convention: `conj z / |z|`, and `0` at `z = 0`
+    (JAX's rule for `abs` of a complex array; for a *real* array JAX returns `1` at `0` — the value at `0`
+    never matters where the theorems apply: either `z ≠ 0`, or the entry is structurally zero and
+    the cotangent is multiplied by a zero row of the operator in front, e.g. the zero-padded boundary
+    differences of a non-circular anisotropic TV norm) -/
+def absGrad (z : Cx α) : Cx α := if 0 < Cx.abs z then Cx.divr z.conj (Cx.abs z) else 0
+
 /-- `__call__` -/
 def Fn.eval : {n : Nat} → Fn α n → CVec α n → α
   | _, .zero, _ => 0
@@ -273,7 +338,7 @@ def Fn.eval : {n : Nat} → Fn α n → CVec α n → α
   | _, .huber δ true, x => Vec.sum (fun i => huberOf δ (Cx.abs (x i)))
   | _, .huber δ false, x => huberNonsepOf δ (sumAbs2 x)
   | _, .l1ml2 β, x => Vec.sum (fun i => Cx.abs (x i)) - β * norm2 x
-  | _, .l21 _ grp, x => Vec.sum (fun g => HasSqrt.sqrt (groupAbs2 grp x g))
+  | _, .l21 _ grp, x => Vec.sum (fun g => l2normGuarded (groupAbs2 grp x g))
   | _, .scaled c f, x => c * f.eval x
   | _, .add f g, x => f.eval x + g.eval x
   | _, .sep f g, x => f.eval (vleft x) + g.eval (vright x)
@@ -282,6 +347,13 @@ def Fn.eval : {n : Nat} → Fn α n → CVec α n → α
       s * Vec.sum (fun i => w i * Cx.abs2 (y i - mulVec A x i))
   | _, .sqL2SqAbsLoss s A y w, x =>
       s * Vec.sum (fun i => w i * ((y i - Cx.abs2 (mulVec A x i)) * (y i - Cx.abs2 (mulVec A x i))))
+  | _, .sqL2AbsLoss s A y w, x =>
+      s * Vec.sum (fun i => w i * ((y i - Cx.abs (mulVec A x i)) * (y i - Cx.abs (mulVec A x i))))
+  | _, .poisson s A y cst, x =>
+      s * Vec.sum (fun i => (mulVec A x i).re - y i * HasLog.log (mulVec A x i).re + cst i)
+  | _, .lossOp s F y f, x => s * f.eval (vsub (F.eval x) y)
+  | _, .sqL2LossOp s F y w, x =>
+      s * Vec.sum (fun i => w i * Cx.abs2 (y i - F.eval x i))
 
 /-- What `jax.grad(self.__call__)(x)` returns (JAX convention: for a real-valued function of a
     complex argument it is `∂f/∂Re − i ∂f/∂Im`, obtained by propagating the cotangent `1` backwards
@@ -292,14 +364,16 @@ def Fn.jaxGrad : {n : Nat} → Fn α n → CVec α n → CVec α n
   | _, .zero, _ => fun _ => 0
   | _, .sqL2, x => fun i => Cx.smul two (x i).conj
   | _, .l2, x => fun i => Cx.divr (x i).conj (norm2 x)
-  | _, .l1, x => fun i => Cx.divr (x i).conj (Cx.abs (x i))
+  | _, .l1, x => fun i => absGrad (x i)
   | _, .huber δ true, x => fun i =>
       if δ < Cx.abs (x i) then Cx.smul δ (Cx.divr (x i).conj (Cx.abs (x i))) else (x i).conj
   | _, .huber δ false, x => fun i =>
       if δ < norm2 x then Cx.smul δ (Cx.divr (x i).conj (norm2 x)) else (x i).conj
   | _, .l1ml2 β, x => fun i =>
-      Cx.divr (x i).conj (Cx.abs (x i)) - Cx.smul β (Cx.divr (x i).conj (norm2 x))
-  | _, .l21 _ grp, x => fun i => Cx.divr (x i).conj (HasSqrt.sqrt (groupAbs2 grp x (grp i)))
+      absGrad (x i) - Cx.smul β (Cx.divr (x i).conj (norm2 x))
+  | _, .l21 _ grp, x => fun i =>
+      if 0 < groupAbs2 grp x (grp i) then Cx.divr (x i).conj (HasSqrt.sqrt (groupAbs2 grp x (grp i)))
+      else 0
   | _, .scaled c f, x => vsmul c (f.jaxGrad x)
   | _, .add f g, x => vadd (f.jaxGrad x) (g.jaxGrad x)
   | _, .sep f g, x => vappend (f.jaxGrad (vleft x)) (g.jaxGrad (vright x))
@@ -310,6 +384,15 @@ def Fn.jaxGrad : {n : Nat} → Fn α n → CVec α n → CVec α n
   | _, .sqL2SqAbsLoss s A y w, x =>
       vsmul s (mulVec (transpose A)
         (fun i => Cx.smul (-(two * two * w i * (y i - Cx.abs2 (mulVec A x i)))) (mulVec A x i).conj))
+  | _, .sqL2AbsLoss s A y w, x =>
+      vsmul s (mulVec (transpose A)
+        (fun i => Cx.smul (-(two * w i * (y i - Cx.abs (mulVec A x i))))
+          (Cx.divr (mulVec A x i).conj (Cx.abs (mulVec A x i)))))
+  | _, .poisson s A y _, x =>
+      vsmul s (mulVec (transpose A) (fun i => Cx.ofReal (1 - y i / (mulVec A x i).re)))
+  | _, .lossOp s F y f, x => vsmul s (F.vjpT x (f.jaxGrad (vsub (F.eval x) y)))
+  | _, .sqL2LossOp s F y w, x =>
+      vsmul s (F.vjpT x (fun i => Cx.smul (two * w i) (F.eval x i - y i).conj))
 
 /-- JAX gradient of the non-separable Huber norm as the code stood *before* the repair
     (`norm(x)` then `cond(xl2 <= δ, 0.5*xl2**2, …)`): the inner branch is `‖x‖·(conj x/‖x‖)`, which is
@@ -337,6 +420,10 @@ def Fn.mulScalar {n : Nat} : Fn α n → α → Fn α n
   | .loss s A y f, o => .loss (s * o) A y f
   | .sqL2Loss s A y w, o => .sqL2Loss (s * o) A y w
   | .sqL2SqAbsLoss s A y w, o => .sqL2SqAbsLoss (s * o) A y w
+  | .sqL2AbsLoss s A y w, o => .sqL2AbsLoss (s * o) A y w
+  | .poisson s A y c, o => .poisson (s * o) A y c
+  | .lossOp s F y f, o => .lossOp (s * o) F y f
+  | .sqL2LossOp s F y w, o => .sqL2LossOp (s * o) F y w
   | f, o => .scaled o f
 
 /-- `f / c`: only `Loss.__truediv__` exists (`scale = self.scale / other`); for any other
@@ -345,6 +432,10 @@ def Fn.divScalar {n : Nat} : Fn α n → α → Option (Fn α n)
   | .loss s A y f, o => some (.loss (s / o) A y f)
   | .sqL2Loss s A y w, o => some (.sqL2Loss (s / o) A y w)
   | .sqL2SqAbsLoss s A y w, o => some (.sqL2SqAbsLoss (s / o) A y w)
+  | .sqL2AbsLoss s A y w, o => some (.sqL2AbsLoss (s / o) A y w)
+  | .poisson s A y c, o => some (.poisson (s / o) A y c)
+  | .lossOp s F y f, o => some (.lossOp (s / o) F y f)
+  | .sqL2LossOp s F y w, o => some (.sqL2LossOp (s / o) F y w)
   | _, _ => none
 
 /-- `SquaredL2Loss.hessian` (`eval_fn` and `adj_fn` are the same closure):
